@@ -11,7 +11,7 @@ import (
 	"github.com/dolthub/dolt/go/zzverif/vsql"
 )
 
-const c22Rule = "2-4 client sessions of one in-process sql-server (autocommit on or off per session, BEGIN/START TRANSACTION, COMMIT, ROLLBACK, SET autocommit, USE db/branch, dolt_checkout, occasional dolt_commit) run 15-45 statements over 1-2 tables on 2-3 branches in a statement-level interleaving drawn by rapid; reads are full-table or point SELECTs of the current branch (unqualified or `db/branch`.t), of another branch's working set (`db/branch`.t) and of branch heads (AS OF 'branch' / 'HEAD'); writes are INSERT/REPLACE/UPDATE/DELETE over primary keys 1..6. Every SELECT result is compared (as a sorted multiset of rows) with the reference model: snapshot of all branches taken by the first statement of the transaction (+) the transaction's own writes; autocommit statements see the latest committed state. Non-trivial: some transaction read a table (working set or head, own or other branch), another session then committed a change to exactly that table, and the first transaction read it again before ending (R1(x) W2(x) C2 R1(x)); distinct by the full statement history."
+const c22Rule = "2-4 client sessions of one in-process sql-server (autocommit on or off per session, BEGIN/START TRANSACTION, COMMIT, ROLLBACK, SET autocommit, USE db/branch, dolt_checkout, occasional dolt_commit; a separate session creates up to two new branches mid-schedule, which open transactions then reference) run 15-45 statements over 1-2 tables on 2-3 branches in a statement-level interleaving drawn by rapid; reads are full-table or point SELECTs of the current branch (unqualified or `db/branch`.t), of another branch's working set (`db/branch`.t) and of branch heads (AS OF 'branch' / 'HEAD'); writes are INSERT/REPLACE/UPDATE/DELETE over primary keys 1..6. Every SELECT result is compared (as a sorted multiset of rows) with the reference model: snapshot of all branches taken by the first statement of the transaction (+) the transaction's own writes; autocommit statements see the latest committed state. Non-trivial: some transaction read a table (working set or head, own or other branch), another session then committed a change to exactly that table, and the first transaction read it again before ending (R1(x) W2(x) C2 R1(x)); distinct by the full statement history."
 
 func c22Cfg() *txCfg {
 	ops := []string{}
@@ -27,6 +27,7 @@ func c22Cfg() *txCfg {
 	add("begin", 5)
 	add("setac", 3)
 	add("switch", 6)
+	add("newbranch", 4)
 	add("doltcommit", 6)
 	return &txCfg{id: "C22", sessMin: 2, sessMax: 4, tablesMax: 2, branchMin: 2, branchMax: 3, vcolMin: 2, vcolMax: 3,
 		pkMax: 6, stepsMin: 15, stepsMax: 45, ops: ops, kindWeights: [4]int{6, 2, 8, 4}, pkPredPercent: 60, crossBranchWrites: true, acOnPercent: 30}
@@ -37,7 +38,8 @@ func TestVerif_C22(t *testing.T) {
 		"the harness owns the schedule at statement granularity (one statement of one session at a time); true parallel execution is the separate goroutine variant",
 		"a transaction writes to one branch only (dolt rejects commits that changed several branches); writes to a second branch are not generated",
 		"SET autocommit=1 is not issued while the session has pending writes or is inside BEGIN; after a dolt_commit inside BEGIN the session's next statement is COMMIT or ROLLBACK (the properties do not define those corner semantics)",
-		"branches and tables are created before the sessions start; no DDL, no branch creation during the schedule",
+		"tables are created before the sessions start (no DDL during the schedule); up to two branches are created mid-schedule by a separate autocommit session (dolt_branch from the head of an existing branch)",
+		"a transaction may reference a branch created after its snapshot (qualified read, AS OF, USE; not dolt_checkout, whose failure leaves the session on the unknown branch): the result of that statement itself is not asserted (dolt answers branch not found); every later read and the commit of that transaction are asserted against the unchanged snapshot",
 		"known finding C22-autocommit-stale-tx-after-failed-dml (open): after a failed DML in an autocommit session the session's next statement is ROLLBACK; counted in excluded_known")
 	defer rec.Write(t)
 	dir, cleanup := vh.ScratchDir(t, "c22")
